@@ -132,7 +132,7 @@ def run(ctx):
         kinds.add(cfg["tree"]["kind"])
         obs = observe(cfg, i)
         ctx.evaluations += 1
-        sc = {"cfg": cfg, "variant": i % 6}
+        sc = {"cfg": cfg, "variant": i % 60}
         if "crash" in obs:
             ctx.violation(sc, "crash: " + obs["crash"])
             continue
@@ -154,7 +154,7 @@ def run(ctx):
     ctx.traces += len(sub) - len(rejects)
     for rec in sub:
         if rec["tid"] in rejects:
-            ctx.violation({"cfg": rec["cfg"], "variant": rec["tid"] % 6},
+            ctx.violation({"cfg": rec["cfg"], "variant": rec["tid"] % 60},
                           "code->spec: TLC rejects recorded composite run, clause %s" % rejects[rec["tid"]])
     return ctx.finish(
         rule="TLC enumerates composition trees (ensembles with 4 aggregates, pipelines with 1-2 transformers "
